@@ -143,6 +143,20 @@ for h, t, b, tier in [
 ]:
     add(h, t, b, tier=tier, role="long_distance" if "long" in h else "myers_simple", **({} if "long" in h else {"min_covers": 2}))
 
+# ---------------------------------------------------------------------------------------------------------------- C01
+add = prop("C01", "c01",
+ "Bounded model checking of the real pairwise::Aligner: for each listed shape and clip pattern ALL sequence contents, ALL substitution tables (2x2 on symbol classes, entries in [-4,4], asymmetric and positive mismatch scores included), ALL gap penalties in [-4,0] and ALL enabled clip penalties in [-4,0] are covered by one solver query. (a) No competitor alignment the solver can pick (any sub-ranges, any operation string) scores higher than the reported score; (b) the reported operations and coordinates are walked against x and y and re-scored from the documented model. (a)+(b) => the score is the optimum and the path attains it.",
+ "Bound: custom() at shape 1x1 for all 16 enabled/disabled clip patterns with fully symbolic scoring (quick); 1x2 shapes, the restore-after-semiglobal/global history (second call on the same object) and concrete-scheme variants (thorough). " + TRUST + "Not decided: shapes from 2x2 upwards (my combined optimality+validity harness exhausts 24 GB there although the optimality half alone completed at 2x2/3x3 in the design-phase probes), local()/semiglobal() as first call (1x1 took 15-18 min and is covered only through the restore instances), history across different shapes. Outside: scores outside [-4,4]; overflow for astronomically large scores.",
+ ["bio::alignment::pairwise::Aligner::{with_capacity_and_scoring,custom,global,semiglobal,local}", "pairwise::{Scoring,MatchFunc for closures,Traceback,TracebackCell}", "bio_types::alignment::Alignment::filter_clip_operations"],
+ "see level_note", "see level_note", ["substitution function = 2x2 table indexed by (byte & 1); bytes themselves fully symbolic"])
+for k in range(16):
+    add(f"c01_custom_1x1_k{k}", 450, f"custom(), shape 1x1, clip pattern {k:04b} (bit0 xclip_prefix, bit1 xclip_suffix, bit2 yclip_prefix, bit3 yclip_suffix enabled, others MIN_SCORE); bytes, 2x2 score table, gaps and enabled clips symbolic", role="custom")
+add("c01_custom_1x2_k0", 535, "custom(), shape 1x2, no clips (global)", tier="thorough", role="custom")
+add("c01_fixed_1x2_k15_s1", 535, "custom(), shape 1x2, all clips enabled (symbolic in [-3,0]), concrete asymmetric table [[2,1],[-3,-1]] with gap_open 0, gap_extend -1", tier="thorough", role="custom")
+add("c01_restore_1x2_k4_s0_semi", 1215, "semiglobal() then custom() on the same aligner, shape 1x2, only yclip_prefix enabled: the second call must be optimal+valid under the aligner's OWN clip penalties (wrapper must restore them)", tier="thorough", role="restore")
+add("c01_restore_1x1_k15_s0_global", 715, "global() then custom() on the same aligner, shape 1x1, all clips enabled", tier="thorough", role="restore")
+add("c01_fixed_1x1_k15_s0", 400, "custom(), 1x1, concrete table [[1,-1],[-1,1]], gaps -2/-1", tier="thorough", role="custom")
+
 # ---------------------------------------------------------------------------------------------------------------- C02
 add = prop("C02", "c02",
  "Bounded model checking of the real banded::Aligner when the band covers the whole matrix (k longer than both sequences, hence no k-mer match): for each listed shape/mode ALL sequence contents and ALL enabled clip penalties are covered by one solver query; the returned path must be a valid alignment of the reported sub-ranges whose re-computed score equals the reported score, no competitor alignment the solver can pick may score higher (= equals the unbanded optimum), and the traceback must terminate (unwinding assertions; a loop of the code under test that does not finish is replayed natively and counts as a violation only if the native run hangs too).",
